@@ -117,6 +117,15 @@ def heavy_multiset(smiles):
     return Counter({k: v for k, v in c[0].items() if k != "H"})
 
 
+def _renumbered(smiles, keys):
+    """-> (Mol whose atoms are renumbered by the drawn sort keys, map: index in MolFromSmiles(smiles) -> new index)"""
+    m = Chem.MolFromSmiles(smiles)
+    n = m.GetNumAtoms()
+    new_order = sorted(range(n), key=lambda i: (keys[i % len(keys)], i))
+    pos = {old: new for new, old in enumerate(new_order)}
+    return Chem.RenumberAtoms(m, new_order), pos
+
+
 def check_case(case, spec=None):
     from synrbl.SynMCSImputer.structure import CompoundSet
     from synrbl.SynMCSImputer.merge import merge
@@ -151,12 +160,26 @@ def check_case(case, spec=None):
     cs = CompoundSet()
     frags = []
     catalyst = None
+    keys = case.get("mol_keys")
+    if keys:
+        # the API also takes rdkit Mol objects; their atom numbering is the caller's (here a drawn renumbering) and the
+        # boundary / neighbour indices refer to it
+        res.tag("form:mol-objects")
+
+    def add(frag, idx, nb):
+        if not keys:
+            c = cs.add_compound(frag, src_mol=src)
+            c.add_boundary(idx, neighbor_index=nb)
+            return c
+        fm, fpos = _renumbered(frag, keys)
+        sm, spos = _renumbered(src, keys[1:] + keys[:1])
+        c = cs.add_compound(fm, src_mol=sm)
+        c.add_boundary(fpos[idx], neighbor_index=spos[nb])
+        return c
     try:
         if mode == "two":
-            c1 = cs.add_compound(s1, src_mol=src)
-            c1.add_boundary(i1, neighbor_index=o1)
-            c2 = cs.add_compound(s2, src_mol=src)
-            c2.add_boundary(i2, neighbor_index=o2)
+            c1 = add(s1, i1, o1)
+            c2 = add(s2, i2, o2)
             frags = [s1, s2]
         elif mode in ("oneA", "oneB", "catalyst"):
             s, i, o = (s1, i1, o1) if mode != "oneB" else (s2, i2, o2)
@@ -168,13 +191,11 @@ def check_case(case, spec=None):
                 extras = {"cat": catalyst, "cat2": case.get("catalyst2")}
                 for slot in order:
                     if slot == "frag":
-                        c1 = cs.add_compound(s, src_mol=src)
-                        c1.add_boundary(i, neighbor_index=o)
+                        c1 = add(s, i, o)
                     elif extras.get(slot):
                         cs.add_compound(extras[slot], src_mol=extras[slot])
             else:
-                c1 = cs.add_compound(s, src_mol=src)
-                c1.add_boundary(i, neighbor_index=o)
+                c1 = add(s, i, o)
     except Exception as e:
         res.inconclusive = "compound set construction rejected: " + type(e).__name__
         return res
@@ -198,7 +219,7 @@ def check_case(case, spec=None):
         return res
     out = nonisomeric(out_smiles)
     detail = dict(smiles=src, bond=bidx, mode=mode, fragments=frags, result=out_smiles, rules=rules,
-                  boundary=[(s1, i1), (s2, i2)], catalyst=catalyst)
+                  boundary=[(s1, i1), (s2, i2)], catalyst=catalyst, mol_keys=keys)
     if out is None or oracle.parse(out_smiles) is None:
         res.fail("result-unparsable", "valid molecule", **detail)
         return res
@@ -367,6 +388,8 @@ def cut_case(draw, max_heavy=30):
     bond = draw(st.integers(0, 60))
     mode = draw(st.sampled_from(["two", "two", "oneA", "oneB", "catalyst"]))
     c = {"smiles": s, "bond": bond, "mode": mode}
+    if draw(st.integers(0, 3)) == 0:
+        c["mol_keys"] = draw(st.lists(st.integers(0, 9), min_size=3, max_size=12))
     if mode == "catalyst":
         cats = ["O", "O", "CO", "CCO", "c1ccncc1", "OCCO", "CC(C)O", "[Pd]", "CN(C)C", "CCN"]
         c["catalyst"] = draw(st.sampled_from(cats))
